@@ -689,10 +689,21 @@ def inline_helper(body, helper_name, helper_sig, helper_body):
     if any(t.kind == "ident" and t.text == "return" for t in btoks):
         raise Undecided("R21: helper %s contains `return`" % helper_name)
     hits = 0
+    # a helper whose own body calls a method of the same name (e.g. `fn lock(&self) { self.inner.lock().unwrap() }`) cannot be
+    # told apart from a recursive call by name: not inlined (an inlined copy would be inlined again, for ever)
+    if any(b.kind == "ident" and b.text == helper_name and k + 1 < len(btoks) and btoks[k + 1].text == "(" for k, b in enumerate(btoks)):
+        raise Undecided("R21: helper %s calls a method of the same name (cannot be inlined by name)" % helper_name)
     while True:
+        if hits > 40:
+            raise Undecided("R21: helper %s: more than 40 call sites" % helper_name)
         toks, match = _toks(body)
         found = None
         for i, t in enumerate(toks):
+            if t.kind == "ident" and t.text == helper_name and i + 1 < len(toks) and toks[i + 1].text == "(" and i >= 1 \
+                    and toks[i - 1].text not in (".", "::", "fn") and not has_self:
+                # a free helper function called by its plain name
+                found = (i, i, match[i + 1], None)
+                break
             if t.kind == "ident" and t.text == helper_name and i + 1 < len(toks) and toks[i + 1].text == "(" and i >= 2 \
                     and toks[i - 1].text in (".", "::"):
                 # receiver path
@@ -721,7 +732,8 @@ def inline_helper(body, helper_name, helper_sig, helper_body):
         if recv is not None:
             hb = _apply(hb, [(b.start, b.end, recv) for b in btoks if b.kind == "ident" and b.text == "self"])
         if params:
-            binder = "let (%s) = (%s%s);" % (", ".join(("mut " if m else "") + n for n, _, m in params), args, "," if len(params) == 1 else "")
+            one = "," if len(params) == 1 else ""
+            binder = "let (%s%s) = (%s%s);" % (", ".join(("mut " if m else "") + n for n, _, m in params), one, args, one)
         else:
             binder = ""
         inner = hb.strip()
@@ -858,6 +870,11 @@ class FnItem:
                 fns = [f for f in fns if not spec.get("deep_skip_impl") or True]
             else:
                 fns = src.find_fn(spec["name"], lo, hi)
+            if spec.get("sig_has"):
+                # several functions of that name (e.g. a private helper and a public method inside a macro body): the one whose
+                # signature contains the given text
+                want = "".join(spec["sig_has"].split())
+                fns = [f for f in fns if want in "".join(src.text[src.toks[f[0]].start:src.toks[f[2]].start].split())]
             if len(fns) != 1:
                 raise Undecided("%s: free fn %s found %d times" % (rel, spec["name"], len(fns)))
             f = fns[0]
@@ -910,10 +927,15 @@ class FnItem:
         sig, body = self.sig_src, self.body_src
         hits = {}
         for hname in sp.get("inline_helpers", []):
-            def _cands(path):
+            hrecv = None
+            if isinstance(hname, tuple):
+                hname, hrecv = hname
+            def _cands(path, recv=None):
                 sx = Source(path)
-                cx = sx.find_fn(hname)
+                cx = [] if recv else sx.find_fn(hname)
                 for b in sx.find_blocks("impl", "."):
+                    if recv and not re.search(r"\b%s\b" % re.escape(recv), " ".join(t.text for t in sx.toks[b[0]:b[1]])):
+                        continue
                     cx += sx.find_fn(hname, b[1] + 1, b[2])
                 return sx, cx
             src, cands = _cands(self._repo + "/" + self.rel)
@@ -930,6 +952,15 @@ class FnItem:
                     except Exception:
                         continue
                     allc += [(sx, c) for c in cx]
+                if len(allc) > 1 and hrecv:
+                    # several definitions in the crate: keep those in an impl block of the receiver's type
+                    allc = []
+                    for path in sorted(glob.glob(crate_src + "/**/*.rs", recursive=True)):
+                        try:
+                            sx, cx = _cands(path, hrecv)
+                        except Exception:
+                            continue
+                        allc += [(sx, c) for c in cx]
                 if len(allc) == 1:
                     src, cands = allc[0][0], [allc[0][1]]
                 else:
@@ -1038,6 +1069,29 @@ class FnItem:
                 n_closures += 1
         if n_closures > len(sp.get("closures") or {}):
             self.imprecise.append("%d closure(s) without a spliced contract" % (n_closures - len(sp.get("closures") or {})))
+        # a parameter that the body re-binds (`let flags = ..`) while a hint placed in the body mentions it by name: the hint then talks
+        # about the wrong binding, and a failure proves nothing about the code
+        try:
+            stoks, smatch = _toks(sig)
+            fi = next(k for k, t in enumerate(stoks) if t.text == "fn")
+            po = next(k for k in range(fi, len(stoks)) if stoks[k].text == "(")
+            pnames, depth = [], 0
+            for k in range(po + 1, smatch[po]):
+                tx = stoks[k].text
+                if tx in ("(", "[", "<"):
+                    depth += 1
+                elif tx in (")", "]", ">"):
+                    depth -= 1
+                elif tx == ":" and depth == 0 and stoks[k - 1].kind == "ident":
+                    pnames.append(stoks[k - 1].text)
+            hint_txt = " ".join([pr[2] for pr in sp.get("proofs", []) if pr[0] != "start"] + list((sp.get("loops") or {}).values()))
+            for pn in pnames:
+                if pn == "self":
+                    continue
+                if re.search(r"\blet\s+(?:mut\s+)?%s\b" % re.escape(pn), body) and re.search(r"\b%s\b" % re.escape(pn), hint_txt):
+                    self.imprecise.append("parameter `%s` is re-bound in the body while a proof hint mentions it" % pn)
+        except StopIteration:
+            pass
         if re.search(r"\bas\s+f(64|32)\b", body):
             # an integer -> float cast left in the text (no rewrite of the unit names it): this Verus gives it an arbitrary value
             self.imprecise.append("float cast `as f64` without a model")
@@ -1120,6 +1174,11 @@ class FnItem:
             where, anchor, txt = pr[0], pr[1], pr[2]
             occ = pr[3] if len(pr) > 3 else None
             optional = pr[4] if len(pr) > 4 else False
+            if where == "start":
+                # right after the opening brace of the function body: ghost captures of the parameters, so that hints further down do
+                # not depend on a parameter name that the code may re-bind (shadow)
+                inserts.append((body.index("{") + 1, "\n" + _indent(txt, 12) + "\n", "proof@start"))
+                continue
             if where == "end":
                 # just before the closing brace of the function body
                 semi = ""
